@@ -222,6 +222,7 @@ def parse(handshake_bytes: bytes, dtls: bool = False) -> dict:
     out["sni_names"] = None
     out["sni"] = None
     out["alpn"] = None
+    out["duplicate_types"] = []
     if h.eof():
         out["extensions"] = None
         return out
@@ -232,6 +233,9 @@ def parse(handshake_bytes: bytes, dtls: bool = False) -> dict:
         t = eb.u16()
         exts.append((t, eb.vec(2)))
     out["extensions"] = exts
+    types = [t for t, _ in exts]
+    # RFC 8446 4.2 / RFC 5246 7.4.1.4: "There MUST NOT be more than one extension of the same type"
+    out["duplicate_types"] = sorted({t for t in types if types.count(t) > 1})
     for t, b in exts:
         if t == EXT_SERVER_NAME and out["sni_names"] is None:
             out["sni_names"] = parse_sni_body(b)
